@@ -133,6 +133,10 @@ func vxSetup() {
 		return
 	}
 	vxSetupDone = true
+	// the option values a daemon runs with by default (a curve implementation that consults them must behave under them)
+	configuration.CurrentConfig = configuration.Configuration{RunFanInitializationInParallel: true, MaxRpmDiffForSettledFan: 20, FanResponseDelay: 2,
+		TempSensorPollingRate: 200 * time.Millisecond, TempRollingWindowSize: 10, RpmPollingRate: time.Second, RpmRollingWindowSize: 10,
+		ControllerAdjustmentTickRate: 200 * time.Millisecond}
 	vxFS = env.New()
 	p := vxFS.Add("hwmon0/temp1_input", 0)
 	vxSharedSensor = vxNewSensor(configuration.SensorConfig{ID: "vxs",
